@@ -74,8 +74,8 @@ fn to_py(core: &Core, ind: usize) -> String {
         }
         Core::ExpressionType { expr, ty } => format!("{}: {}", to_py(expr, ind), to_py(ty, ind)),
         Core::DocStr { string } => format!("\"\"\"{string}\"\"\""),
-        Core::Str { string } => format!("\"{string}\""),
-        Core::FStr { string } => format!("f\"{string}\""),
+        Core::Str { string } => format!("\"{}\"", one_line(string)),
+        Core::FStr { string } => format!("f\"{}\"", one_line(string)),
         Core::Int { int } => int.clone(),
         Core::ENum { num, exp } => format!("({num} * 10 ** {exp})"),
         Core::Float { float } => float.clone(),
@@ -475,6 +475,12 @@ fn comparison(left: &Core, op: &str, right: &Core, ind: usize) -> String {
 
 fn indent(amount: usize) -> String {
     " ".repeat(IND_SPACES * amount)
+}
+
+/// A line break inside a Mamba string literal is written as an escape: a Python string in
+/// single quotes cannot span lines.
+fn one_line(string: &str) -> String {
+    string.replace('\r', "\\r").replace('\n', "\\n")
 }
 
 fn newline_if_body(core: &Core, ind: usize) -> String {
